@@ -218,6 +218,7 @@ func suiteValues(cfg Config, res *Result) {
 		map[string]int(nil), []string(nil), map[string]int{}, (*int)(nil), (*string)(nil), (*VS1)(nil), (*[]int)(nil),
 		bigKeys, bigList, bigInts, []uint64{math.MaxUint64, 1 << 63, 1<<63 - 1, 0}, []int64{math.MinInt64, math.MaxInt64, 0, -1},
 		map[int64]int{math.MinInt64: 1, -1: 2, 1 << 53: 3, 1<<53 + 1: 4}, map[uint8]string{200: "x", 3: "y", 100: "z"},
+		map[string]int{"adam": 1, "Adam": 2, "bea": 3, "Bea": 4, "BEA": 5, "ADAM": 6}, []string{"b", "B", "a", "A", "ab", "Ab"}, map[string]string{"accept": "1", "Accept": "2", "ACCEPT": "3"},
 		[3]string{"x", "y", "z"}, [4]int{4, 3, 2, 1}, [0]int{}, []byte("héllo"), []uint8{3, 1, 2},
 		sort.IntSlice{3, 1, 2}, sort.StringSlice{"b", "c", "a"}, byLen{"ccc", "a", "bbbb", "dd"}, sort.Float64Slice{2.5, -1, 0},
 		[]*pongo2.Value{pongo2.AsValue(3), pongo2.AsValue(1), pongo2.AsValue(2)}, []*pongo2.Value{pongo2.AsValue("b"), pongo2.AsSafeValue("a")},
